@@ -485,6 +485,171 @@ def loop_switch_cases(n_max):
     return out
 
 
+# -- E3: listeners registered / removed by a callback of the release ---------
+class ChangeCtx:
+    pass
+
+
+class Changer(Listener):
+    def _got(self, event, payload):
+        ctx = self.ctx
+        pos = len(ctx.log)
+        ctx.log.append((self.label, event, payload))
+        if pos != ctx.at:
+            return
+        ctx.fired_at = pos
+        other = ctx.listeners['L2' if self.label == 'L1' else 'L1']
+        action = ctx.action
+        if action in ('remove_self', 'swap'):
+            ctx.d.remove_handler(self)
+            ctx.registered.discard(self.label)
+        if action == 'remove_other':
+            ctx.d.remove_handler(other)
+            ctx.registered.discard(other.label)
+        if action in ('add_other', 'swap'):
+            ctx.d.add_handler(other)
+            ctx.registered.add(other.label)
+
+
+@desper.event_handler(e='on_e', f='on_f')
+class C1(Changer):
+    pass
+
+
+@desper.event_handler(e='on_e')
+class C2(Changer):
+    pass
+
+
+def listener_change_cases(max_events):
+    out = []
+    for n in range(1, max_events + 1):
+        for events in itertools.product(EVENTS, repeat=n):
+            for initial in (('L1',), ('L2',), ('L1', 'L2')):
+                for at in range(2 * n):
+                    for action in ('remove_self', 'remove_other',
+                                   'add_other', 'swap'):
+                        out.append((events, initial, at, action))
+    return out
+
+
+def run_listener_change(case):
+    """Events queued while disabled; during the release the callback at
+    delivery position ``at`` changes the listener set.  Events released
+    after that one go to the listeners registered at their delivery time."""
+    events, initial, at, action = case
+    ctx = ChangeCtx()
+    ctx.log, ctx.at, ctx.action, ctx.fired_at = [], at, action, None
+    ctx.d = d = desper.EventDispatcher()
+    ctx.listeners = {'L1': C1('L1', ctx), 'L2': C2('L2', ctx)}
+    ctx.registered = set()
+    # every event name is known to the dispatcher (a listener that is
+    # registered once and removed again), so that queueing does not depend
+    # on who listens at dispatch time
+    for name in ('L1', 'L2'):
+        d.add_handler(ctx.listeners[name])
+    for name in ('L1', 'L2'):
+        if name not in initial:
+            d.remove_handler(ctx.listeners[name])
+    ctx.registered = set(initial)
+    d.dispatch_enabled = False
+    payloads = []
+    for i, ev in enumerate(events):
+        payloads.append(Payload(i + 1))
+        d.dispatch(ev, payloads[-1])
+    if ctx.log:
+        raise Violation('nothing_delivered_while_disabled', f'{case}: '
+                        f'{ctx.log}')
+    before = set(ctx.registered)
+    try:
+        d.dispatch_enabled = True
+    except Exception as exc:
+        raise Violation('enable_raised_unexpectedly', f'{case}: {exc!r}')
+    if ctx.fired_at is None:
+        return {'calls': 1, 'hits': {}, 'key': repr(case),
+                'nontrivial': False}
+    after = set(ctx.registered)
+
+    def listening(reg, ev):
+        return sorted(n for n in reg if ev in ctx.listeners[n].__events__)
+
+    log = ctx.log
+    i = 0
+    changed = False
+    hits = {'listener_set_changed_during_release': 1}
+    for k, (ev, payload) in enumerate(zip(events, payloads)):
+        got = []
+        first = i
+        while i < len(log) and log[i][2] is payload:
+            got.append(log[i][0])
+            i += 1
+        if any(r[1] != ev for r in log[first:i]):
+            raise Violation('delivered_under_its_name', f'{case}: {log}')
+        if len(set(got)) != len(got):
+            raise Violation('delivered_once_per_listener', f'{case}: {log}',
+                            nested=False)
+        if not changed and first <= ctx.fired_at < i:
+            # the event during which the set changed: listeners on both
+            # sides of the change get it, for the others either is fine
+            changed = True
+            lo = set(listening(before, ev)) & set(listening(after, ev))
+            hi = set(listening(before, ev)) | set(listening(after, ev))
+            if not lo <= set(got) <= hi:
+                raise Violation(
+                    'delivered_to_registered_listeners',
+                    f'{case}: event {k} ({ev}) reached {got}; registered '
+                    f'before the change {sorted(before)}, after '
+                    f'{sorted(after)}; log {log}')
+            continue
+        want = listening(after if changed else before, ev)
+        if sorted(got) != want:
+            if changed:
+                hits['event_released_after_the_change'] = 1
+            raise Violation(
+                'delivered_to_listeners_registered_at_delivery_time',
+                f'{case}: event {k} ({ev}) reached {got}, listeners '
+                f'registered when it was delivered: {want} (the callback at '
+                f'position {at} did {action}); log {log}',
+                after_change=changed, action=action)
+        if changed:
+            hits['event_released_after_the_change'] = 1
+    if i != len(log):
+        raise Violation('delivered_in_dispatch_order_exactly_once',
+                        f'{case}: log {log}: entry {i} out of order or '
+                        f'repeated', after_fault=False, retry=False,
+                        nested=False)
+    if not d.dispatch_enabled:
+        raise Violation('dispatch_enabled_flag', f'{case}: still disabled',
+                        op='enable')
+    # nothing is left behind: a later event is delivered at once, once
+    mark = len(log)
+    last = Payload(99)
+    d.dispatch('e', last)
+    got = sorted(r[0] for r in log[mark:])
+    if got != listening(after, 'e') or any(r[2] is not last
+                                           for r in log[mark:]):
+        raise Violation('enabled_dispatch_delivers_now',
+                        f'{case}: after the release dispatch(e) reached '
+                        f'{log[mark:]}, listeners {listening(after, "e")}',
+                        backlog=False)
+    return {'calls': 2 + len(events), 'hits': hits, 'key': repr(case)}
+
+
+def world_gate_driver(tier):
+    """The same gate seen through a World: lifecycle callbacks that close
+    it (on_add / on_remove disabling dispatching) in the middle of an
+    operation that still has callbacks to announce."""
+    from props.worldlib import WorldDriver
+    ids = (1,) if tier == 'quick' else (1, 2)
+    return WorldDriver(
+        'world-gate', own='L', types=('H', 'HY', 'HZ'), ids=ids,
+        explicit_ids=(1,), max_autos=1 if tier == 'quick' else 2,
+        toggles=True, max_postponed=2,
+        shapes=(('H',), ('HY',), ('HY', 'H'), ('H', 'HY'), ('HZ', 'H')),
+        coarse=False, clear_op=False, process_op=tier != 'quick',
+        delete_ops=tier != 'quick')
+
+
 def drivers(tier):
     if tier == 'quick':
         return {'defer': (DeferDriver(max_queue=4, max_faults=1),
@@ -510,7 +675,17 @@ def run(tier, rep):
         'with a backlog: events dispatched then are delivered at once (C03), '
         'the backlog keeps its order and is released by the next enabling '
         'assignment',
-        'callbacks do not register / unregister listeners during a release',
+        'callbacks do not register / unregister listeners during a release '
+        'in the E1 parts; part release-listener-change (E3) does exactly '
+        'that: one callback of the release removes itself, removes or adds '
+        'the other listener, or swaps - events released after the one in '
+        'progress go to the listeners registered then (the event in '
+        'progress: listeners on both sides of the change get it, for the '
+        'others either is accepted)',
+        'part world-gate: the World as dispatcher - lifecycle callbacks that '
+        'disable dispatching in the middle of create_entity / '
+        'add_component / removal; what the operation still has to announce '
+        'is postponed, nothing is announced twice',
     ]
     rep.require_hits(release_backlog=1, fault_raise=1, fault_disable=1,
                      fault_disable_dispatch=1, fault_disable_enable=1,
@@ -521,6 +696,18 @@ def run(tier, rep):
                      queued_without_listener=1)
     for name, (driver, kw) in drivers(tier).items():
         kernel.explore(driver, rep, part=name, params=driver.params(), **kw)
+    gate = world_gate_driver(tier)
+    rep.require_hits(callback_disables_dispatching=1)
+    kernel.explore(gate, rep, part='world-gate', params=gate.params(),
+                   max_states=600000, time_budget=600)
+    rep.require_hits(listener_set_changed_during_release=1,
+                     event_released_after_the_change=1)
+    kernel.enumerate_cases(run_listener_change,
+                           listener_change_cases(3 if tier == 'quick' else 5),
+                           rep, 'release-listener-change', chunk=100,
+                           params=dict(max_events=3 if tier == 'quick' else 5,
+                                       actions=['remove_self', 'remove_other',
+                                                'add_other', 'swap']))
     rep.require_hits(switch_reloads_target=1)
     kernel.enumerate_cases(run_loop_switch,
                            loop_switch_cases(3 if tier == 'quick' else 4),
@@ -529,6 +716,15 @@ def run(tier, rep):
 
 
 def replay(rec):
+    if rec['part'] == 'release-listener-change':
+        try:
+            run_listener_change(kernel.totuple(rec['case']))
+        except Violation as v:
+            return v
+        return None
+    if rec['part'] == 'world-gate':
+        # the thorough alphabet contains the quick one
+        return kernel.replay_case(world_gate_driver('thorough'), rec['case'])
     if rec['part'] == 'loop-switch-releases':
         try:
             run_loop_switch(kernel.totuple(rec['case']))
